@@ -309,3 +309,88 @@ def scratch_reuse(case, ctx):
             w, model = build(s)
         before = scratch.copy()
         run_fft(s, w, model, "reused", "C09.reuse", wl=st_["wavelength"], scratch=scratch, before=before)
+
+
+# --- round-number set-ups whose grid size is decided by a rounding tie ------------------------------
+
+@st.composite
+def ties_case(draw, tier="quick"):
+    dx = draw(st.sampled_from([1 / 50, 1 / 40, 0.01, 0.02, 0.025, 1e-3, 5e-3, 1 / 64]))
+    du = draw(st.sampled_from([5e-6, 1e-5, 4e-6, 2.5e-6, 1.5e-5, 8e-6]))
+    z = draw(st.sampled_from([0.5, 1.0, 2.0, 5.0, 10.0, 20.0]))
+    os_ = draw(st.integers(1, 3))
+    hi = 40 if tier == "quick" else 72
+    band = []
+    for _ in range(draw(st.integers(1, 4))):
+        N = draw(st.integers(4, hi))
+        frac = draw(st.sampled_from([0.5, 0.5, 0.5, 0.0, 0.25]))
+        form = draw(st.sampled_from(["direct", "nm_times", "nm_div", "decimal"]))
+        ulps = draw(st.integers(-2, 2))
+        x = (N + frac) * dx * du / (z * os_)
+        nm = round(x * 1e9, 6)
+        if form == "nm_times":
+            wl = nm * 1e-9
+        elif form == "nm_div":
+            wl = nm / 1e9
+        elif form == "decimal":
+            wl = float(f"{nm:.6f}e-9")
+        else:
+            wl = x
+        for _ in range(abs(ulps)):
+            wl = float(np.nextafter(wl, np.inf if ulps > 0 else -np.inf))
+        band.append({"N": N, "frac": frac, "form": form, "ulps": ulps, "wavelength": wl})
+    Nmin = min(b["N"] for b in band)
+    m, n = draw(st.integers(2, Nmin)), draw(st.integers(2, Nmin))
+    return {"dx": dx, "du": du, "z": z, "oversample": os_, "band": band,
+            "pupil": draw(pupil_for([m, n], band[0]["wavelength"])), "as_array": draw(st.booleans())}
+
+
+@hyp("C09", "ties", lambda tier: ties_case(tier),
+     "round-number set-ups (catalogue pixel pitches, focal lengths, wavelengths on a decimal nm grid) where "
+     "wavelength*z*oversample/(dx*du) sits on or within 2 ulp of N+1/2: a dirty buffer of exactly "
+     "scratch_shape(band) must be accepted for every wavelength of the band and give the field obtained without "
+     "scratch, which must be the DFT on whichever of the two adjacent grids was chosen", examples=(250, 1000),
+     budget_s=(120, 600))
+def ties(case, ctx):
+    if single_sample(case["pupil"]):
+        raise Skip("single_sample_segment(known)")
+    os_, band = case["oversample"], case["band"]
+    wls = [b["wavelength"] for b in band]
+    arg = np.asarray(wls) if case["as_array"] else (wls if len(wls) > 1 else wls[0])
+    with lentil_call("C09.ties.scratch_shape", "scratch_shape(band)"):
+        adv = tuple(int(v) for v in lentil.scratch_shape(arg, case["dx"], case["du"], case["z"], os_))
+    rng = np.random.default_rng(adv[0] * 977 + adv[1])
+    scratch = rng.normal(size=adv) + 1j * rng.normal(size=adv)
+    ctx.tag(f"band:{len(band)}", "has_tie" if any(b["frac"] == 0.5 for b in band) else "no_tie",
+            *sorted({"form:" + b["form"] for b in band}), *sorted({f"ulps:{b['ulps']}" for b in band}))
+    ctx.nontrivial_if(any(b["frac"] == 0.5 for b in band))
+    for b in band:
+        s = {"grid": None, "oversample": os_, "wavelength": b["wavelength"], "z": case["z"], "dx": case["dx"],
+             "du": case["du"], "shape": None, "extra": [0, 0], "pupil": case["pupil"]}
+        with lentil_call("C09.ties.build", "Pupil multiply"):
+            w, model = build(s)
+        what = (f"wavelength {b['wavelength']!r} (N+frac = {b['N']}+{b['frac']}, {b['form']}, {b['ulps']:+d} ulp), dx "
+                f"{case['dx']}, du {case['du']}, z {case['z']}, oversample {os_}")
+        with lentil_call("C09.ties.noscratch", "propagate_fft without scratch: " + what):
+            out0 = lentil.propagate_fft(w, pixelscale=case["du"], oversample=os_)
+            f0 = out0.field
+        grid = f0.shape
+        lo = b["N"] - 1 if b["frac"] == 0.0 else b["N"]
+        if grid[0] != grid[1] or not lo <= grid[0] <= b["N"] + 1:
+            raise Violation("C09.ties.grid", f"FFT grid {grid} for {what}")
+        try:
+            out1 = lentil.propagate_fft(w, pixelscale=case["du"], oversample=os_, scratch=scratch)
+        except ValueError as e:
+            raise Violation("C09.ties.advertised_refused", f"a buffer of exactly scratch_shape(band) = {adv} was refused "
+                                                           f"({e}) for {what}; band {wls}")
+        except Exception as e:  # noqa: BLE001
+            raise Violation("C09.ties.raised", f"propagate_fft with the advertised scratch raised {type(e).__name__}: {e}")
+        f1 = out1.field
+        if f1.shape != grid or cm.max_abs(f1 - f0) > 1e-14 * max(cm.max_abs(f0), 1e-300):
+            raise Violation("C09.ties.transparent", f"result with the advertised scratch differs from the result without "
+                                                    f"for {what}")
+        ref, tol = reference(model, grid, grid)
+        cm.compare_field("C09.ties.value", f0, ref, tol, None, what=f"grid {grid}: " + what)
+        lam = grid[0] / os_ * case["dx"] * case["du"] / case["z"]
+        if abs(out0.wavelength - lam) > 1e-12 * lam or abs(out1.wavelength - lam) > 1e-12 * lam:
+            raise Violation("C09.ties.wavelength", f"reported wavelength {out0.wavelength} != {lam} for grid {grid}")
